@@ -62,6 +62,7 @@ type world struct {
 	orderViolation string
 	hist   []string
 	maxTxSize uint32
+	allNoVote    bool
 	lastAccepted *blockchain.Block // latest forged block that reached consensus (was published)
 	accepted     []*blockchain.Block
 	gStar     []byte // the validator owning the current wall-clock slot: the only one the real generator forges for
@@ -147,7 +148,7 @@ func (w *world) extend(t *rapid.T, k int, noVote bool) {
 			slot++
 		}
 		sp := node.Spec{AbsSlot: slot, Script: node.Script{Salt: rapid.Uint32Range(0, 50).Draw(t, "salt")}}
-		if noVote && rapid.IntRange(0, 1).Draw(t, "noVote") == 0 {
+		if noVote && (w.allNoVote || rapid.IntRange(0, 1).Draw(t, "noVote") == 0) {
 			// a header with maxHeightGenerated >= height implies no votes: keeps maxHeightPrevoted low on this branch, so that a
 			// later, shorter branch can be the better chain
 			mhg := w.n.Tip().Header.Height + 1
@@ -401,9 +402,76 @@ func (w *world) forge(t *rapid.T) bool {
 	return true
 }
 
+// scenario: the situation the statement singles out, built deliberately — forge, move to a better but shorter chain, (restart,)
+// forge at a lower height, move on, forge again.
+func runScenario(t *rapid.T, w *world) (forges, restarts, lower int) {
+	w.allNoVote = true
+	w.extend(t, rapid.IntRange(6, 10).Draw(t, "slowPrefix"), true) // headers implying no votes: maxHeightPrevoted stays low
+	w.allNoVote = false
+	last := uint32(0)
+	rounds := rapid.IntRange(2, 4).Draw(t, "rounds")
+	for r := 0; r < rounds; r++ {
+		h := w.n.Tip().Header.Height + 1
+		if w.forge(t) {
+			forges++
+			if last != 0 && h < last {
+				lower++
+			}
+			last = h
+		}
+		if r == rounds-1 {
+			break
+		}
+		// move to a better, shorter chain
+		F := w.n.Finalized()
+		maxDel := int(w.n.Tip().Header.Height - F)
+		if maxDel < 1 {
+			break
+		}
+		d := rapid.IntRange(1, maxDel).Draw(t, "scenarioDelete")
+		if maxDel >= 4 && rapid.Bool().Draw(t, "deep") {
+			d = rapid.IntRange(4, maxDel).Draw(t, "scenarioDeleteDeep")
+		}
+		for j := 0; j < d; j++ {
+			tip := w.n.Tip()
+			if err := w.n.Exec.VerifDeleteBlock(tip, false); err != nil {
+				w.fail("delete: %v", err)
+			}
+			w.hist = append(w.hist, fmt.Sprintf("delete h=%d", tip.Header.Height))
+		}
+		for j := 0; j < 10; j++ {
+			mhp, _, _ := w.n.Heights()
+			if w.lastAccepted == nil || mhp > w.lastAccepted.Header.MaxHeightPrevoted {
+				break
+			}
+			w.extend(t, 1, false)
+		}
+		if rapid.Bool().Draw(t, "scenarioRestart") {
+			w.newGenerator()
+			restarts++
+			w.hist = append(w.hist, "restart generator (same generator database)")
+		}
+	}
+	return
+}
+
 func runHistory(t *rapid.T) {
 	w := newWorld(t)
 	defer w.close()
+	if rapid.Bool().Draw(t, "scenario") {
+		forges, restarts, lower := runScenario(t, w)
+		labels := []string{"history", "scenario"}
+		if restarts > 0 {
+			labels = append(labels, "with-restart")
+		}
+		if lower > 0 {
+			labels = append(labels, "forged-at-lower-height")
+		}
+		evid.R.Case(strings.Join(w.hist, "|"), forges >= 3 && restarts >= 1 && lower >= 1, func() any {
+			return map[string]any{"kind": "history", "actions": w.hist, "forges": forges}
+		}, labels...)
+		return
+	}
 	w.extend(t, rapid.IntRange(0, 12).Draw(t, "prefix"), rapid.Bool().Draw(t, "slowPrefix"))
 	forges, restarts, lower := 0, 0, 0
 	steps := rapid.IntRange(3, 12).Draw(t, "steps")
